@@ -1,5 +1,5 @@
 CONSTANTS
-  Comps = {"x", ".h", "...", ".", ".."}
+  Comps = {"x", "X", ".h", "...", ".", ".."}
   MaxDepth = 3
 INIT Init
 NEXT Next
